@@ -91,5 +91,8 @@ CLAIMS = {
     "C12": dict(category=MC, technique="session specification (Reparse o Unparse = identity on (vars, value)) + trace validation of unparse->parse and serde round trips after arbitrary calculus histories, incl. tables with colliding alphabetic names",
                 text="A parsed flat expression prints its text verbatim; deep and derived expressions (conversion, operator application, substitution, differentiation) print to a text that parses back to the same variables and value; serde round trip likewise; adversarial operator-name tables (binary `at` + unary `an` vs unary `atan`).",
                 note="Trusted: TLC, Field.tla/Jets.tla (a field with free function symbols / truncated series; a wrong value escapes with probability ~1e-4 per point, 3 points), the recorder's exact-rational symbolic type Sym.  Literals print through Debug of the symbolic type (`@k` for non-integers), which satisfies the property's precondition. Known finding F8 is reported, not counted."),
+    "C18": dict(category=MC, technique="power-series judge extended to piecewise expressions (Piecewise.tla: branch selection by exact rational evaluation of the conditions) applied to derivative structures recorded through the verif_dump hook; rule table model-checked by MC_Diff",
+                text="Seeded programs `f if cond else g` (nested, arithmetic around, elementary functions at their base points, comparison conditions strictly inside a branch) over the value type: parse_val(text).partial(k) must be, as a power series at the point, the derivative of the branch the conditions select; conditions must survive untouched; out-of-range indices are errors.",
+                note="Trusted: TLC, Piecewise.tla/Jets.tla, the hook dump of FlatExVal. Integers and floats are identified as reals; programs whose own value depends on integer division fall under known finding F6. Known findings F6 and F10 are reported, not counted."),
 }
 NOT_YET = {}
